@@ -437,6 +437,27 @@ def alias_ok(sql_plain, sql_alias):
     return out == a and n_alias == n_cols
 
 
+_SQLITE = None
+
+
+def sqlite_syntax_error(sql, alias):
+    """the SQLite dialect's text must at least be SQLite syntax: prepare it (EXPLAIN) against a table that has every column"""
+    global _SQLITE
+    import sqlite3
+    if _SQLITE is None:
+        _SQLITE = sqlite3.connect(":memory:")
+        _SQLITE.execute("CREATE TABLE t (%s)" % ", ".join('"f%d"' % i for i in range(200)))
+    try:
+        _SQLITE.execute('EXPLAIN SELECT 1 FROM t%s WHERE %s' % (' AS "%s"' % alias if alias else "", sql))
+    except sqlite3.OperationalError as e:
+        msg = str(e)
+        if "syntax error" in msg or "unrecognized token" in msg or "incomplete input" in msg:
+            return msg
+    except sqlite3.Error:
+        pass
+    return None
+
+
 def check_term(acc, term):
     tu, leaves = uniquify(term)
     text = to_odata(tu)
@@ -485,6 +506,12 @@ def check_term(acc, term):
                     pass
             acc.violation("%s:%s:%s" % (d, bad[0], SC.opsig(term)), {"filter": text, "dialect": d, "sql": sql, "problem": bad}, finding=finding)
             continue
+        if d == "sqlite":
+            err = sqlite_syntax_error(sql, None)
+            if err:
+                finding = "sqlite:interval-literal-not-sqlite-syntax" if any(st[0] == "Duration" for st in T.subterms(tu)) and "INTERVAL" in sql else None
+                acc.violation("sqlite:engine-syntax:%s" % SC.opsig(term), {"filter": text, "dialect": d, "sql": sql, "problem": ["engine-syntax", err]}, finding=finding)
+                continue
         if outs["al"][0] != "sql" or not alias_ok(sql, outs["al"][1]):
             acc.violation("alias:%s" % d, {"filter": text, "dialect": d, "sql": sql, "sql_alias": outs["al"]})
             continue
